@@ -23,6 +23,7 @@ Emit == PrintT("@@PV " \o ToJson([
           gf |-> [i \in 1..Len(Mo.gf) |-> [ij |-> Mo.gf[i], terms |-> GFTerms(Mo, Mo.gf[i][1], Mo.gf[i][2])]],
           docc |-> [i \in 1..Len(Mo.docc) |-> [ij |-> Mo.docc[i], terms |-> DoccTerms(Mo, Mo.docc[i][1], Mo.docc[i][2])]],
           avg |-> [i \in 1..Len(Mo.avg) |-> [ab |-> Mo.avg[i], terms |-> AvgTerms(Mo, Mo.avg[i][1], Mo.avg[i][2])]],
+          chi |-> [i \in 1..Len(Mo.chi) |-> [q |-> Mo.chi[i], paths |-> ChiPaths(Mo, Mo.chi[i][1], Mo.chi[i][2], Mo.chi[i][3], Mo.chi[i][4])]],
           sus |-> [i \in 1..Len(Mo.sus) |-> [q |-> Mo.sus[i], terms |-> SusTerms(Mo, Mo.sus[i][1], Mo.sus[i][2], Mo.sus[i][3], Mo.sus[i][4])]]
         ]))
 =============================================================================
